@@ -120,6 +120,11 @@ def mk_bin(op, ty, a, b):
             return a
         if op in ("shl", "lshr", "mul", "udiv", "urem", "srem", "sdiv") and is_c(a) and a[2] == 0 and op not in ("mul",):
             return zero
+    if bits and op == "sub" and b[0] == "op" and b[1] == "mul":
+        # x - (x / y) * y == x % y (same signedness of the division), whatever the values (y == 0 is undefined for both)
+        for q_, y_ in ((b[3], b[4]), (b[4], b[3])):
+            if q_[0] == "op" and q_[1] in ("sdiv", "udiv") and q_[3] == a and q_[4] == y_:
+                return mk_bin("srem" if q_[1] == "sdiv" else "urem", ty, a, y_)
     if bits and bits > 1 and op == "sub" and is_c(a) and a[2] == (1 << bits) - 1 and not is_c(b):
         return mk_bin("xor", ty, b, C(bits, -1))                          # -1 - z == ~z
     if bits and bits > 1 and op == "udiv" and b[0] == "op" and b[1] == "sub" and is_c(b[3]) and b[3][2] == 0:
